@@ -49,12 +49,7 @@ func codecRule(c *Ctx, rule string) {
 		if c.w.pkgPathOf(fn) != pkgRoot {
 			continue
 		}
-		hasPrefixTest := false
-		allInstrs(fn, func(i ssa.Instruction) {
-			if call, ok := i.(*ssa.Call); ok && calleeName(&call.Call) == "bytes.HasPrefix" && isGlobalLoad(peel(call.Call.Args[1]), c.a.KeyValue) {
-				hasPrefixTest = true
-			}
-		})
+		hasPrefixTest := testsValuePrefix(c, fn)
 		allInstrs(fn, func(i ssa.Instruction) {
 			call, ok := i.(*ssa.Call)
 			if !ok {
@@ -135,6 +130,17 @@ func codecRule(c *Ctx, rule string) {
 					} else {
 						s.kind = "temp"
 					}
+				} else if p, isP := peel(src).(*ssa.Parameter); isP {
+					// a decoding helper (`decodeTempKey(k)`): the record is whatever its callers pass for k. One site per
+					// classified binding, so a helper that decodes for two record kinds is compared with both writers.
+					if bound := boundKeySources(c, p, func(v ssa.Value) int64 { return offsetOf(call, v) }, 0); len(bound) > 0 {
+						for _, b := range bound {
+							sb := s
+							sb.kind, sb.off = b.kind, s.off+b.off
+							sites = append(sites, sb)
+						}
+						return
+					}
 				}
 			default:
 				return
@@ -187,6 +193,71 @@ func codecRule(c *Ctx, rule string) {
 		}
 	}
 	c.r.expect(rule, 3)
+}
+
+// testsValuePrefix: fn tests some byte string for the bitmap-key prefix (bytes.HasPrefix(k, keyPrefixValue)): the cursor
+// keys it decodes are bitmap keys of the data bucket, not temp keys.
+func testsValuePrefix(c *Ctx, fn *ssa.Function) bool {
+	found := false
+	allInstrs(fn, func(i ssa.Instruction) {
+		if call, ok := i.(*ssa.Call); ok && calleeName(&call.Call) == "bytes.HasPrefix" && isGlobalLoad(peel(call.Call.Args[1]), c.a.KeyValue) {
+			found = true
+		}
+	})
+	return found
+}
+
+// keySource: one origin of the bytes a decoding helper reads through a parameter: the record kind of the caller's
+// argument and the offset within the record at which the parameter's bytes start (`decode(k[1:])`: 1).
+type keySource struct {
+	kind string
+	off  int64
+}
+
+// boundKeySources binds parameter p of a decoding helper to the arguments of the helper's call sites in the module
+// (depth 2: a helper of a helper) and classifies each: the row-counter item, or a cursor key — a bitmap key if the
+// caller or the helper tests the bitmap-key prefix, else a temp key. Arguments that are neither (bytes that never were
+// in the database) give no entry, exactly as an unclassified decode in the function itself gives no site. A helper that
+// is also used as a function value can run on byte strings the call sites do not show: no entries (the decode is then
+// not counted as a reader, and a record without reader is reported).
+func boundKeySources(c *Ctx, p *ssa.Parameter, offsetOf func(ssa.Value) int64, depth int) []keySource {
+	fn := p.Parent()
+	if fn == nil || depth > 1 || c.usedAsValue(fn) {
+		return nil
+	}
+	var out []keySource
+	for _, bs := range c.bindingSites(fn, p) {
+		arg, off := bs.arg, int64(0)
+		if sl, ok := arg.(*ssa.Slice); ok {
+			if sl.Low != nil {
+				off = offsetOf(sl.Low)
+			}
+			arg = sl.X
+		}
+		switch {
+		case isCursorKey(arg):
+			kind := "temp"
+			if testsValuePrefix(c, bs.in) || testsValuePrefix(c, fn) {
+				kind = "value"
+			}
+			out = append(out, keySource{kind, off})
+		default:
+			switch x := peel(arg).(type) {
+			case *ssa.Call:
+				if calleeName(&x.Call) == "(*go.etcd.io/bbolt.Bucket).Get" && keyKind(c, x.Call.Args[1]) == "rows" {
+					out = append(out, keySource{"rows", off})
+				}
+			case *ssa.Parameter:
+				for _, b := range boundKeySources(c, x, offsetOf, depth+1) {
+					if b.kind == "temp" && testsValuePrefix(c, fn) {
+						b.kind = "value"
+					}
+					out = append(out, keySource{b.kind, b.off + off})
+				}
+			}
+		}
+	}
+	return out
 }
 
 func isCursorKey(v ssa.Value) bool {
@@ -289,8 +360,10 @@ func arrayRecord(c *Ctx, fn *ssa.Function, arr ssa.Value, prefixLen int64, depth
 }
 
 // appendBase: the number of bytes the base slice of an AppendUintNN call already holds, and whether they start with the
-// bitmap-key prefix. Recognised bases: an empty slice (0), append(empty, keyPrefixValue...) (the prefix length), and
-// AppendUintNN(base', …) (width of base' plus NN/8). ok is false for any other byte string.
+// bitmap-key prefix. Recognised bases: an empty slice (0), append(empty, keyPrefixValue...) (the prefix length), the
+// prefix global itself (`AppendUint64(keyPrefixValue, v)`: the prefix length; the encoded field sits right behind the
+// prefix exactly as in `append(keyPrefixValue, buf[:]...)`), and AppendUintNN(base', …) (width of base' plus NN/8).
+// ok is false for any other byte string.
 func appendBase(c *Ctx, base ssa.Value, prefixLen int64, depth int) (off int64, prefixed, ok bool) {
 	if depth > 8 {
 		return 0, false, false
@@ -299,7 +372,7 @@ func appendBase(c *Ctx, base ssa.Value, prefixLen int64, depth int) (off int64, 
 	switch {
 	case emptyBytes(base):
 		return 0, false, true
-	case prefixedEmpty(c, base):
+	case prefixedEmpty(c, base), isGlobalLoad(base, c.a.KeyValue):
 		return prefixLen, true, true
 	}
 	if call, isCall := base.(*ssa.Call); isCall {
